@@ -18,6 +18,7 @@ import (
 type CCase struct {
 	Mode       int        `json:"mode"`
 	MaxBuf     int        `json:"max_buf"`
+	Filter     int        `json:"filter,omitempty"` // 0 none, 1 halving, 2 constant 2, 3 identity
 	Def        DefSpec    `json:"def"`
 	Procs      int        `json:"gomaxprocs"`
 	Iterations int        `json:"iterations"`
@@ -42,6 +43,14 @@ func oracleC15(c *CCase) (*ev.Failure, cstats) {
 	opts := []lazyproto.Option{lazyproto.WithMode(modeOf(c.Mode))}
 	if c.MaxBuf >= 0 {
 		opts = append(opts, lazyproto.WithMaxBufferSize(c.MaxBuf))
+	}
+	switch c.Filter { // (pure functions: safe to call from any goroutine)
+	case 1:
+		opts = append(opts, lazyproto.WithBufferFilterFunc(func(n int) int { return n / 2 }))
+	case 2:
+		opts = append(opts, lazyproto.WithBufferFilterFunc(func(n int) int { return 2 }))
+	case 3:
+		opts = append(opts, lazyproto.WithBufferFilterFunc(func(n int) int { return n }))
 	}
 	dec, err := lazyproto.NewDecoder(c.Def.build(), opts...)
 	if err != nil {
@@ -147,6 +156,7 @@ func genCCase(t *rapid.T) *CCase {
 	c := &CCase{Def: *s.def()}
 	c.Mode = rapid.IntRange(0, 1).Draw(t, "mode")
 	c.MaxBuf = rapid.SampledFrom([]int{-1, -1, 0, 2, 1024}).Draw(t, "maxbuf")
+	c.Filter = rapid.SampledFrom([]int{0, 0, 1, 2, 3}).Draw(t, "filter")
 	c.Procs = rapid.SampledFrom([]int{1, 2, 16}).Draw(t, "procs")
 	g := rapid.SampledFrom([]int{2, 4, 8, 16, 64}).Draw(t, "goroutines")
 	c.Iterations = rapid.SampledFrom([]int{5, 20, 50}).Draw(t, "iterations")
@@ -166,7 +176,7 @@ func genCCase(t *rapid.T) *CCase {
 	return c
 }
 
-const ruleC15 = "round = one shared lazyproto.Decoder (definition with nested parts, safe or fast mode, optional max buffer size) + G in {2,4,8,16,64} goroutines released by a barrier, each looping Decode -> run its queries (incl. NestedResult(s) paths) -> compare with the reference parse of ITS OWN input (expectations computed beforehand) -> Close, with rapid-chosen runtime.Gosched() injection points, GOMAXPROCS in {1,2,16}; the binary is built with -race and halts on the first race report; " +
+const ruleC15 = "round = one shared lazyproto.Decoder (definition with nested parts, safe or fast mode, optional max buffer size, optional buffer filter {halving, constant 2, identity}) + G in {2,4,8,16,64} goroutines released by a barrier, each looping Decode -> run its queries (incl. NestedResult(s) paths) -> compare with the reference parse of ITS OWN input (expectations computed beforehand) -> Close, with rapid-chosen runtime.Gosched() injection points, GOMAXPROCS in {1,2,16}; the binary is built with -race and halts on the first race report; " +
 	"non-trivial = an iteration during which >= 2 goroutines were between Decode and Close at once (atomic in-flight counter); such iterations are distinct by construction (round, goroutine, iteration)"
 
 func TestC15(t *testing.T) {
@@ -189,7 +199,7 @@ func TestC15(t *testing.T) {
 		rec.ClassN("iterations-overlapping", st.overlapped)
 		rec.ClassN("iterations", st.iterations)
 		if st.overlapped > 0 {
-			rec.Sample(fmt.Sprintf("procs=%d", c.Procs), map[string]any{"gomaxprocs": c.Procs, "goroutines": len(c.Workers), "iterations_each": c.Iterations, "mode": c.Mode, "max_buf": c.MaxBuf,
+			rec.Sample(fmt.Sprintf("procs=%d", c.Procs), map[string]any{"gomaxprocs": c.Procs, "goroutines": len(c.Workers), "iterations_each": c.Iterations, "mode": c.Mode, "max_buf": c.MaxBuf, "filter": c.Filter,
 				"def": c.Def, "overlapping_iterations": st.overlapped, "max_in_flight": st.maxInFlight, "worker0": c.Workers[0]})
 		}
 		rec.Check(rt, "ccase", c, f)
